@@ -70,6 +70,36 @@ def foreign_chars():
     return _chars
 
 
+_alikes = None
+
+
+def letter_alikes():
+    """{ASCII upper-case letter: [non-ASCII characters that a case mapping, case folding or compatibility
+    normalisation turns into that letter]} (Kelvin sign -> K, long s -> S, dotless i -> I, full-width and
+    mathematical letters ...), restricted to characters outside the clean-up table.  Code that tests a lower-cased /
+    upper-cased / normalised copy but returns the original text passes exactly these through."""
+    global _alikes
+    if _alikes is None:
+        cm = G.char_map()
+        res = {}
+        for cp in range(128, 0x110000):
+            c = chr(cp)
+            if c in cm:
+                continue
+            for f in (c.lower(), c.upper(), c.casefold(), unicodedata.normalize('NFKC', c), unicodedata.normalize('NFKD', c)):
+                if len(f) == 1 and f.isascii() and f.isalpha():
+                    lst = res.setdefault(f.upper(), [])
+                    if c not in lst:
+                        lst.append(c)
+        # keep the case-mapping ones all, thin the (many) compatibility letters to a few per letter
+        _alikes = {}
+        for L, lst in res.items():
+            strong = [c for c in lst if any(len(g) == 1 and g.isascii() for g in (c.lower(), c.upper(), c.casefold()))]
+            weak = [c for c in lst if c not in strong]
+            _alikes[L] = strong + weak[:4]
+    return _alikes
+
+
 def behaviour_class(c):
     """what Python level tests can see of a character; used ONLY to thin out the quick tier (3 per class)"""
     import re
@@ -192,6 +222,16 @@ def _worker(task):
                     run(gs, f[:i] + c + f[i + 1:], kw, kwk)
                 for i in range(len(f) + 1):
                     run(gi, f[:i] + c + f[i:], kw, kwk)
+    # same-letter look-alikes: every valid number of the corpus (prefixes and table members differ per number), every
+    # position holding an ASCII letter, every character that a case mapping / normalisation turns into that letter
+    if part == 0:
+        alikes = letter_alikes()
+        cap = 400 if tier == 'quick' else 4000
+        for v in G.diverse(common.valid_numbers(modname), cap):
+            for i, ch in enumerate(v):
+                for c in alikes.get(ch.upper(), ()) if ch.isascii() and ch.isalpha() else ():
+                    run('subst-same-letter', v[:i] + c + v[i + 1:], {}, ())
+    for idx, f in forms:
         # whole-number respelling in one foreign decimal script (every digit replaced by the same-valued digit)
         for zero in ('٠', '۰', '०', '০', '๐', '\U0001d7ce', '\U0001e950', '\U00011066'):
             if unicodedata.decimal(zero, None) == 0 and zero not in G.char_map():
